@@ -333,13 +333,13 @@ func (g *bgen) schema(doc string, depth int, allowRef bool) O {
 		return g.prim()
 	}
 	switch {
-	case k >= 87:
+	case k >= 90:
 		return g.prim()
-	case k < 22 && allowRef && len(ts) > 0:
+	case k < 20 && allowRef && len(ts) > 0:
 		return g.refTo(doc, ts[g.Int(0, len(ts)-1)])
-	case k < 35:
+	case k < 32:
 		return g.prim()
-	case k < 55: // object
+	case k < 50: // object
 		s := O{"type": "object"}
 		props := O{}
 		for _, n := range g.propNames() {
@@ -360,7 +360,7 @@ func (g *bgen) schema(doc string, depth int, allowRef bool) O {
 			s["discriminator"] = SortedKeys(props)[0]
 		}
 		return s
-	case k < 65: // map
+	case k < 60: // map
 		s := O{"type": "object"}
 		if g.Pct(85) {
 			s["additionalProperties"] = g.schema(doc, depth+1, allowRef)
@@ -368,13 +368,13 @@ func (g *bgen) schema(doc string, depth int, allowRef bool) O {
 			s["additionalProperties"] = true
 		}
 		return s
-	case k < 77: // array
+	case k < 71: // array
 		s := O{"type": "array", "items": g.schema(doc, depth+1, allowRef)}
 		if g.Pct(8) {
 			s["additionalItems"] = g.schema(doc, depth+1, allowRef) // unusual but loadable: additionalItems next to a single items schema
 		}
 		return s
-	case k < 85: // tuple
+	case k < 79: // tuple
 		n := g.Int(1, 3)
 		var its A
 		for i := 0; i < n; i++ {
@@ -389,7 +389,7 @@ func (g *bgen) schema(doc string, depth int, allowRef bool) O {
 			}
 		}
 		return s
-	case k < 92 || !g.cfg.Exotic: // allOf
+	case k < 84 || !g.cfg.Exotic: // allOf (the exotic holders below take k in 84..89)
 		n := g.Int(1, 3)
 		var its A
 		for i := 0; i < n; i++ {
